@@ -355,8 +355,21 @@ func (fr *frame) wellFormed(t types.Type, x string, s *state) {
 		if pt, ok := u.(*types.Pointer); ok {
 			// the object a pointer parameter/result points to holds values of its field types
 			if _, isStruct := pt.Elem().Underlying().(*types.Struct); isStruct && !isTime(pt.Elem()) {
-				if ra := e.st.rangeAssume(pt.Elem(), app("select", e.get(s, e.memRegion(pt.Elem())), x), 0); ra != "" {
+				obj := app("select", e.get(s, e.memRegion(pt.Elem())), x)
+				if ra := e.st.rangeAssume(pt.Elem(), obj, 0); ra != "" {
 					e.assume(implies(not(eq(x, "0")), ra))
+				}
+				// ... and the pointers, maps and slices stored in it refer to memory that is already allocated
+				si := e.st.structOf(pt.Elem())
+				su := pt.Elem().Underlying().(*types.Struct)
+				for i := 0; i < su.NumFields(); i++ {
+					ft := app(si.fields[i], obj)
+					switch su.Field(i).Type().Underlying().(type) {
+					case *types.Slice:
+						e.assume(implies(not(eq(x, "0")), app("<", app("+", app("s.base", ft), app("s.cap", ft)), top)))
+					case *types.Pointer, *types.Map:
+						e.assume(implies(not(eq(x, "0")), app("<", ft, top)))
+					}
 				}
 			}
 		}
